@@ -48,6 +48,14 @@ CHECKS["C13"] = ("positions", "model_checking",
    "bounded exhaustive exploration: every document of a (preceding lines x preceding text on the line x link form x host block x line ending) alphabet, and in each every (line, UTF-16 character) position plus two lines past the end, is queried on the real server (definition, prepareRename, rename; symbols; code actions per line); answers are compared with link spans and block lines computed from pulldown-cmark's offset iterator and an own byte-offset -> UTF-16 position mapper",
    "position == end of the link span is a don't-care; the prepareRename range must be a well-formed range inside the link span (exact destination columns are not demanded by the statement)",
    "explicit-state enumeration of inputs x positions against the implementation with a reference-model oracle", "§5 C13")
+CHECKS["C15"] = ("paths", "model_checking",
+   "bounded exhaustive exploration of the whole space of path shapes up to a depth: every (note key, linking directory) pair over two segment names and every decorated url over {a, b, ., ..} with .md / ./ forms is run through the real Key API, import/export, completion and extract; round-trip laws (no expected literals) are checked against an own path resolver",
+   "urls that climb above the root or name a directory are a don't-care; inline links are C05/C06's subject",
+   "explicit-state enumeration of the input space against the implementation, algebraic round-trip laws with a reference resolver", "§5 C15")
+CHECKS["C14"] = ("names", "model_checking",
+   "bounded exhaustive exploration of on-disk libraries: every subset (up to the bound) of a file-name alphabet (spaces, non-ASCII, %, dots, .md.md, nested directories, #) under every base-path form (plain, with a space, trailing slash) is written to a scratch directory and loaded by the real disk loader and Server; the file, its file:// URI (built by Url::from_file_path) and links to it must address one and the same note: formatting, references, go-to-definition, didChange (no second note), and every URI in responses maps back to an existing file",
+   "note identity is observed through titles; the Server is driven directly with the state produced by liwe::fs::new_for_path (the state: None branch of main_loop)",
+   "explicit-state enumeration of the configuration space against the implementation", "§5 C14")
 NOT_APPLICABLE = {}
 manifest = {
  "version": 1,
@@ -65,6 +73,8 @@ manifest = {
    {"name": "reqs", "path": "/verif/mc/src/engines/reqs.rs", "serves_properties": ["C12"], "kind_free_text": "drives every request of a parameter alphabet, singly and in sequences, through the real main_loop over an in-memory connection"},
    {"name": "libspace", "path": "/verif/mc/src/libspace.rs + engines/links.rs", "serves_properties": ["C05","C06"], "kind_free_text": "enumerates small libraries from a link-placement x kind x url-form alphabet and compares the real answers with an independent link scanner/resolver"},
    {"name": "positions", "path": "/verif/mc/src/engines/positions.rs", "serves_properties": ["C13"], "kind_free_text": "sweeps every cursor position of documents with CRLF / non-ASCII prefixes through the real position-based handlers"},
+   {"name": "paths", "path": "/verif/mc/src/engines/paths.rs", "serves_properties": ["C15"], "kind_free_text": "round-trip laws of relative link arithmetic over all path shapes up to a depth"},
+   {"name": "names", "path": "/verif/mc/src/engines/names.rs", "serves_properties": ["C14"], "kind_free_text": "writes libraries with awkward file names / base paths to disk and drives the real loader + server through file URIs"},
    {"name": "docspace", "path": "/verif/mc/src/engines/docs.rs", "serves_properties": ["C01","C02","C03","C07"], "kind_free_text": "enumerates documents from a token alphabet / block grammar / inline grammar and runs the real formatter and server on each"},
  ],
  "checks": [],
